@@ -279,7 +279,49 @@ def container_history(inp):
     return got, fresh
 
 
+def late_check(inp):
+    """a CID built through the API that gets a further check after a Reader for it exists; another run in between; then
+    that Reader's run: it is a run like any other over the CID as it is now"""
+    base = [["D", "Format", "Delimited"], ["F", "k"], ["F", "v"]]
+    check = list(inp["check"])
+
+    def run(reader):
+        res = {"outs": [], "raised": None, "closed": None}
+        try:
+            for r in reader.rows():
+                res["outs"].append(type(r).__name__ if isinstance(r, Exception) else list(r))
+        except Exception as e:  # noqa
+            res["raised"] = type(e).__name__
+        try:
+            reader.close()
+        except Exception as e:  # noqa
+            res["closed"] = type(e).__name__
+        return res
+
+    def text(table):
+        return "".join(",".join(r) + "\n" for r in table)
+    cid = interface.Cid()
+    cid.read("<c08>", [list(r) for r in base])
+    early = validio.Reader(cid, io.StringIO(text(inp["a"]), newline=""), on_error="yield")
+    cid.add_check_row(list(check))
+    if inp.get("between") is not None:
+        between = validio.Reader(cid, io.StringIO(text(inp["between"]), newline=""), on_error="yield")
+        if inp.get("between_closed"):
+            run(between)
+        else:
+            for _ in between.rows():
+                pass
+    got = run(early)
+    fresh_cid = interface.Cid()
+    fresh_cid.read("<c08>", [list(r) for r in base] + [["C"] + check])
+    fresh = run(validio.Reader(fresh_cid, io.StringIO(text(inp["a"]), newline=""), on_error="yield"))
+    return [got], [fresh]
+
+
 def make_case(inp):
+    if inp.get("kind") == "latecheck":
+        got, fresh = late_check(inp)
+        return {"coq": P(P(V.coq_cid(SPEC), "[]"), "[]"), "obs": {"got": got, "fresh": fresh}, "nontrivial": True, "tags": ["check-added-after-reader"]}
     if inp.get("kind") == "container":
         got, fresh = container_history(inp)
         return {"coq": P(P(V.coq_cid(SPEC), "[]"), "[]"), "obs": {"got": got, "fresh": fresh}, "nontrivial": True, "tags": ["container-history", inp["fmt"]]}
@@ -314,6 +356,10 @@ def plain(o):
 
 
 def direct_oracle(inp, obs):
+    if inp.get("kind") == "latecheck":
+        if obs["got"] != obs["fresh"]:
+            return "a Reader created before the check %r was added: %r; a run on a fresh CID with that check: %r" % (inp["check"], obs["got"][0], obs["fresh"][0])
+        return None
     if inp.get("kind") == "container":
         for i, (a, b) in enumerate(zip(obs["got"], obs["fresh"])):
             if a != b:
@@ -340,6 +386,12 @@ def gen_inputs(tier, rnd):
             for second in LIMITED:
                 yield {"spec": spec, "history": [first, second]}
                 yield {"spec": spec, "history": [first, second, first]}
+    # a check added to the CID after a Reader for it was created
+    one, three, dupk = [["a", "1"], ["a", "2"]], [["a", "1"], ["b", "2"], ["c", "3"]], [["a", "1"], ["b", "2"], ["a", "3"]]
+    for check in (["enough", "DistinctCount", "k >= 2"], ["few", "DistinctCount", "k < 3"], ["once", "IsUnique", "k"]):
+        for a in (one, three, dupk, []):
+            for between, closed in ((None, False), (three, True), (three, False), (one, True), (dupk, False)):
+                yield {"kind": "latecheck", "check": check, "a": a, "between": between, "between_closed": closed}
     # spreadsheet documents, some of which cannot be read (the CID names sheet 2): a failed pass is a run like any other
     two = [[["x", "1"]], [["a", "1"], ["b", "2"]]]
     one = [[["a", "1"], ["b", "2"]]]
